@@ -575,9 +575,12 @@ class BatteryDistributionAlgorithm:
         distribution, left_over = self._greedy_distribute_remaining_power(
             distribution, left_over
         )
-        inverter_distribution = self._distribute_multi_inverter_pairs(
-            distribution, excl_bounds, incl_bounds
+        inverter_distribution, not_distributed = (
+            self._distribute_multi_inverter_pairs(
+                distribution, excl_bounds, incl_bounds
+            )
         )
+        left_over += not_distributed
 
         return DistributionResult(
             distribution=inverter_distribution, remaining_power=left_over
@@ -588,7 +591,7 @@ class BatteryDistributionAlgorithm:
         distribution: dict[_InverterSet, _Power],
         excl_bounds: dict[int, float],
         incl_bounds: dict[int, float],
-    ) -> dict[int, float]:
+    ) -> tuple[dict[int, float], float]:
         """Distribute power between inverters in a set for a single pair.
 
         Args:
@@ -597,9 +600,11 @@ class BatteryDistributionAlgorithm:
             incl_bounds: inclusion bounds for inverters and batteries
 
         Returns:
-            Return the power for each inverter in given distribution.
+            Return the power for each inverter in given distribution, and the
+                power that could not be assigned to any inverter.
         """
         new_distribution: dict[int, float] = {}
+        not_distributed: float = 0.0
 
         for inverter_ids, power in distribution.items():
             if len(inverter_ids) == 1:
@@ -609,7 +614,9 @@ class BatteryDistributionAlgorithm:
                 remaining_power = power.power
 
                 # Inverters are sorted by largest excl bound first
-                for inverter_id in inverter_ids:
+                for inverter_id in sorted(
+                    inverter_ids, key=lambda item: (-excl_bounds[item], item)
+                ):
                     if (
                         not is_close_to_zero(remaining_power)
                         and excl_bounds[inverter_id] <= remaining_power
@@ -621,7 +628,9 @@ class BatteryDistributionAlgorithm:
                     else:
                         new_distribution[inverter_id] = 0.0
 
-        return new_distribution
+                not_distributed += remaining_power
+
+        return new_distribution, not_distributed
 
     def _greedy_distribute_remaining_power(
         self, distribution: dict[_InverterSet, _Power], remaining_power: float
